@@ -14,6 +14,8 @@ from typing import (
     Union,
 )
 
+from ..util import escape as escape_text
+
 if TYPE_CHECKING:
     from ..block_parser import BlockParser
     from ..core import BlockState
@@ -102,7 +104,8 @@ class BaseDirective(metaclass=ABCMeta):
             except ValueError as e:
                 token = {"type": "block_error", "raw": str(e)}
         else:
-            text = m.group(0)
+            # block_error is rendered verbatim, escape the user text here
+            text = escape_text(m.group(0))
             token = {
                 "type": "block_error",
                 "raw": text,
